@@ -39,7 +39,7 @@ def to_py(v):
 
 
 def entries_for(v):
-    out = ["metadata", "default", "captured"]
+    out = ["metadata", "default", "captured", "captured_global", "captured_modattr", "captured_clsattr"]
     if v["vt"] in ("str", "int"):
         out.append("metadata_key")
     if v["vt"] == "str" or (v["vt"] == "list" and v["items"] and all(x["vt"] == "str" for x in v["items"])):
@@ -103,6 +103,9 @@ def run(prop, tier):
                     node = DS(ns["Evt"]).Select("lambda e: e.m()").query_ast.args[1].body.args[0]
                 elif entry == "captured":
                     node = embed_callsite.select_with_captured(DS(), pv).query_ast.args[1].body.args[0]
+                elif entry.startswith("captured_"):
+                    fn = getattr(embed_callsite, "select_with_" + entry[len("captured_"):])
+                    node = fn(DS(), pv).query_ast.args[1].body.args[0]
                 else:
                     raise ValueError(entry)
                 rec["lit"] = codec.enc(node)
@@ -143,7 +146,7 @@ def run(prop, tier):
                 "( + # e-acute}, ints incl. negative and > 2^64, floats, bools, None, bytes, wrapped in list / tuple / dict to "
                 "MaxDepth; each value is handed to every entry point it fits (MetaData value and key, AsPandasDF / "
                 "AsAwkwardArray / AsParquetFiles / AsROOTTTree columns, file and tree names, declared default of a typed "
-                "method, variable captured by a real lambda); TLC (TraceEmbed) evaluates the literal found in the "
+                "method, value captured by a real lambda as closure variable / module global / module attribute / class constant); TLC (TraceEmbed) evaluates the literal found in the "
                 "emitted query (LitEval) and compares with the value, or demands ValueError for a non-transportable "
                 "value inside a lambda; non-trivial = string with a quote / backslash / newline / non-ASCII character, "
                 "or a container, or a demanded refusal")
